@@ -317,6 +317,26 @@ Theorem C18_gen_result_store_stop : forall s, s_g s = GActive -> v_stopreq s = t
 Proof. exact gen_rs_stop. Qed.
 Print Assumptions C18_gen_result_store_stop.
 
+(* the metadata store: flag-based Start / Close; Close of a store that is not running is refused and does nothing (the
+   known finding close_before_service_start at this service), Close of a running one unsubscribes, signals, clears *)
+Theorem C18_gen_metadata_store_lifecycle :
+  g_ms_start true = ([], RetO 1) /\ g_ms_start false = ([1; 2], Fall) /\
+  g_ms_loop_body true false false = ([1], Fall) /\ g_ms_loop_body false true false = ([], RetO 2) /\
+  g_ms_loop_body false false true = ([], RetO 0).
+Proof. exact gen_ms_lifecycle. Qed.
+Print Assumptions C18_gen_metadata_store_lifecycle.
+
+Theorem C18_gen_metadata_store_close : forall s e, s_c s = CSvc ->
+  exists s1, step (cfg_new KOnce) s CSvcL = Some s1 /\
+  match g_ms_close (negb (v_started s && negb (v_stopped s))) (v_started s && negb (v_stopped s)) e with
+  | ([], RetO 1) => s_c s1 = CSig CSvcErr /\ v_stopreq s1 = v_stopreq s
+  | ([1], RetO 2) => e = true /\ v_started s = true
+  | ([1; 2; 3], RetO 0) => s_c s1 = CWait CNil /\ v_stopreq s1 = true /\ v_stopped s1 = true
+  | _ => False
+  end.
+Proof. exact gen_ms_close. Qed.
+Print Assumptions C18_gen_metadata_store_close.
+
 (* plugin.Close closes every recoverer in order; startServices launches every recoverer *)
 Theorem C18_gen_plugin_close :
   g_plugin_close = ([1], RetO 1) /\ g_plugin_close_body = ([1], Fall) /\ g_plugin_start_body = ([1], Fall).
